@@ -105,6 +105,90 @@ def suffix_prefix_lemmas(prog):
     return out
 
 
+def _item_source(body, o, depth=0):
+    """the call whose `Some` payload the operand (a slice reference) is: through moves, reborrows `&(*x)` and `(opt as Some).0`"""
+    l = op_local(o)
+    while l is not None and depth < 10:
+        depth += 1
+        ds = body.defs_of(l)
+        if len(ds) != 1:
+            return None
+        bb, si, rv = ds[0]
+        if si == "term":
+            return None
+        if rv["k"] == "ref" and len(rv["place"]["p"]) == 1 and rv["place"]["p"][0]["k"] == "deref":
+            l = rv["place"]["l"]
+            continue
+        if rv["k"] == "use" and rv["a"]["k"] in ("copy", "move"):
+            pl = rv["a"]["place"]
+            if not pl["p"]:
+                l = pl["l"]
+                continue
+            pj = pl["p"]
+            if len(pj) == 2 and pj[0].get("k") == "downcast" and pj[1].get("k") == "field" and pj[1].get("i") == 0:
+                od = body.defs_of(pl["l"])
+                if len(od) == 1 and od[0][1] == "term" and str(body.local_ty(pl["l"])).startswith("std::option::Option<"):
+                    return od[0][2]
+        return None
+    return None
+
+
+def chunks_exact_lemmas(prog):
+    """Lemma CHUNKS-EXACT for `dst.copy_from_slice(chunk)` with `dst: [T; N]` and `chunk` an item of `s.chunks_exact(N)`: every item of
+    ChunksExact has exactly the chunk size (std contract), so the two lengths are equal.  Side conditions re-checked on the MIR on every
+    run: every ChunksExact value of the function comes from a `chunks_exact(_, c)` call with the same literal c (or from the identity
+    adaptors by_ref / into_iter of one), none is received as an argument; the source operand is the `Some` payload of an
+    `Iterator::next` on (references to) a ChunksExact; the destination is an unsized `[T; N]` with N == c."""
+    from .. import obligations as obl, oblrules
+    out = {}
+    CE = r"^(&(mut )?)*std::slice::ChunksExact(Mut)?<"
+    for b in prog.bodies:
+        if not b.file.endswith(("decoder.rs", "encoder.rs")) or not (b.impl_self and re.search(r"(^|::)Base64(De|En)coder\b", b.impl_self)):
+            continue
+        sizes, ok = set(), True
+        for i in range(1, b.arg_count + 1):
+            if "ChunksExact" in str(b.local_ty(i)):
+                ok = False
+        for bb, t in b.calls():
+            dl = t["dest"]["l"]
+            if "ChunksExact" not in str(b.local_ty(dl)):
+                continue
+            if call_matches(t, r"::chunks_exact(_mut)?$") and len(t["args"]) == 2 and op_const_int(t["args"][1]) is not None and re.match(CE, str(b.local_ty(dl))):
+                sizes.add(op_const_int(t["args"][1]))
+            elif call_matches(t, r"(Iterator::by_ref|IntoIterator>?::into_iter)$") and len(t["args"]) == 1 and re.match(CE, str(b.local_ty(dl))):
+                pass
+            else:
+                ok = False
+        if not ok or len(sizes) != 1:
+            continue
+        c = next(iter(sizes))
+        obs = [o for o in obl.collect(b, lossy=False, unsafe=True) if not o.exp]
+        keys = oblrules.site_keys(obs)
+        for o in obs:
+            t = o.term
+            if o.kind != "LIBPRE" or t is None or t.get("k") != "call" or not call_matches(t, r"::(copy|clone)_from_slice$") or len(t["args"]) != 2:
+                continue
+            try:
+                dl = op_local(t["args"][0])
+                dd = b.defs_of(dl) if dl is not None else []
+                if len(dd) != 1 or dd[0][1] == "term" or dd[0][2]["k"] != "cast" or "Unsize" not in str(dd[0][2].get("ck")):
+                    continue
+                src_l = op_local(dd[0][2].get("a") or dd[0][2].get("e"))
+                m = re.fullmatch(r"&(?:'\w+ )?mut \[.+; (\d+)\]", str(b.local_ty(src_l))) if src_l is not None else None
+                if not m or int(m.group(1)) != c:
+                    continue
+                nx = _item_source(b, t["args"][1])
+                if nx is None or not call_matches(nx, r"Iterator>?::next$") or len(nx["args"]) != 1:
+                    continue
+                rl = op_local(nx["args"][0])
+                if rl is None or not re.match(CE, str(b.local_ty(rl))):
+                    continue
+            except (KeyError, IndexError, TypeError):
+                continue
+            out[(b.path, keys[id(o)])] = ("CHUNKS-EXACT", "`[T; %d]::copy_from_slice(item of chunks_exact(%d))`: every item has the chunk size" % (c, c))
+    return out
+
+
 def _chase(body, l, depth=0):
     """the call definition a local's value comes from through plain moves: [(bb, 'term', call)] or []"""
     ds = body.defs_of(l)
@@ -141,7 +225,7 @@ def _obligations(ctx):
         invs["decoder::Base64Decoder"] = inv_dec
     entries = [b.path for b in prog.bodies if b.kind == "AssocFn" and re.sub(r"<.*$", "", b.impl_self or "") in ("encoder::Base64Encoder", "decoder::Base64Decoder")]
     ctx.assume("an io::Write/Read call on a Base64 codec object is not repeated after it returned Err (the carry index may then be 3)")
-    oblrules.run(ctx, "TOTAL", entries, lossy=False, entry_facts=ef, invariants=invs, floor_bodies=5, lemmas=suffix_prefix_lemmas(prog),
+    oblrules.run(ctx, "TOTAL", entries, lossy=False, entry_facts=ef, invariants=invs, floor_bodies=5, lemmas={**suffix_prefix_lemmas(prog), **chunks_exact_lemmas(prog)},
                  scope=lambda b: b.file.endswith(("decoder.rs", "encoder.rs")),
                  desc="no reachable panic/overflow/out-of-bounds/length-mismatch in the base64 encoder and decoder")
 
@@ -354,6 +438,118 @@ def expanded_view(prog, only):
     return p2, absorbed
 
 
+_CMPS = ("Lt", "Le", "Gt", "Ge", "Eq", "Ne")
+_UINT_TYS = ("u8", "u16", "u32", "u64", "u128", "usize")
+
+
+def normalise_difference_guards(body):
+    """Equivalent form of comparisons of a checked difference, in the terms the abstract interpreter refines: with `t = A - x` computed by
+    a *checked* subtraction (MIR `SubWithOverflow` + `assert(!overflow)`, so 0 <= x <= A holds wherever t is read) `t OP K` is the same
+    condition as `A OP x + K` (add x to both sides) for every comparison OP and either operand order.  The interpreter relates `x + K`
+    to x (a symbol plus an offset) but not `A - x` to x, so a guard written `cap - used >= 3` would not bound `used` whereas the same guard
+    written `used + 3 <= cap` does.  The rewritten statement reads copies of A and x taken at the subtraction (fresh locals that nothing
+    else writes or invalidates); the added `x + K` is a plain Add: the interpreter makes it TOP when it may not fit the type, so a wrap
+    cannot be mistaken for the mathematical sum.  No obligation is added or removed (those are the `assert` terminators, untouched).
+    Returns the body itself when nothing of this shape occurs."""
+    from ..mir import Body
+    cfg = None
+    plan = []
+    for bb, blk in enumerate(body.blocks):
+        if blk["cleanup"]:
+            continue
+        for si, st in enumerate(blk["stmts"]):
+            if st["k"] != "assign" or st["rv"]["k"] != "bin" or st["rv"]["op"] not in _CMPS:
+                continue
+            for side, other in (("a", "b"), ("b", "a")):
+                o = st["rv"][side]
+                if o["k"] not in ("copy", "move") or o["place"]["p"]:
+                    continue
+                T = o["place"]["l"]
+                if body.local_ty(T) not in _UINT_TYS:
+                    continue
+                ds = body.defs_of(T)
+                if len(ds) != 1 or ds[0][1] == "term":
+                    continue
+                tb, tsi, rv = ds[0]
+                if not (rv["k"] == "use" and rv["a"]["k"] in ("copy", "move") and len(rv["a"]["place"]["p"]) == 1
+                        and rv["a"]["place"]["p"][0].get("k") == "field" and rv["a"]["place"]["p"][0].get("i") == 0):
+                    continue
+                P = rv["a"]["place"]["l"]
+                pd = body.defs_of(P)
+                if len(pd) != 1 or pd[0][1] == "term" or pd[0][2]["k"] != "bin" or pd[0][2]["op"] != "SubWithOverflow":
+                    continue
+                pb, psi, prv = pd[0]
+                at = body.blocks[pb]["term"]
+                if not (at["k"] == "assert" and at.get("expected") is False and at["cond"]["k"] in ("copy", "move")
+                        and at["cond"]["place"]["l"] == P and len(at["cond"]["place"]["p"]) == 1 and at["cond"]["place"]["p"][0].get("i") == 1):
+                    continue
+                # the difference is read only past the overflow check: its (single) definition lies in the block the assert continues
+                # to, which is entered from the assert only; the comparison is dominated by it
+                cfg = cfg or body.cfg()
+                if at["t"] != tb or cfg.pred[tb] != [pb] or not (tb == bb and tsi < si or (tb != bb and cfg.dominates(tb, bb))):
+                    continue
+                # other writes to P's fields (none in rustc's MIR) would invalidate the reading
+                if any(s2["k"] == "assign" and s2["place"]["l"] == P and s2["place"]["p"] for b2 in body.blocks for s2 in b2["stmts"]):
+                    continue
+                plan.append((bb, si, side, other, pb, psi))
+                break
+    if not plan:
+        return body
+    j = copy.deepcopy(body.j)
+    blocks, locals_ = j["blocks"], j["locals"]
+    inserts = defaultdict(list)          # block -> [(index before which to insert, stmt)]
+    saved = {}                           # (pb, psi) -> (local of A, local of x)
+    for bb, si, side, other, pb, psi in plan:
+        sub = blocks[pb]["stmts"][psi]
+        line = sub.get("line", 0)
+        if (pb, psi) not in saved:
+            ty = body.local_ty(blocks[bb]["stmts"][si]["rv"][side]["place"]["l"])
+            la, lx = len(locals_), len(locals_) + 1
+            locals_.extend([{"ty": ty, "mut": True}, {"ty": ty, "mut": True}])
+            for l, opnd in ((la, sub["rv"]["a"]), (lx, sub["rv"]["b"])):
+                c = copy.deepcopy(opnd)
+                if c["k"] == "move":
+                    c["k"] = "copy"
+                inserts[pb].append((psi + 1, {"k": "assign", "place": {"l": l, "p": []}, "rv": {"k": "use", "a": c}, "line": line, "exp": False, "expk": "", "norm": "difference-guard"}))
+            saved[(pb, psi)] = (la, lx, ty)
+        la, lx, ty = saved[(pb, psi)]
+        cmp_ = blocks[bb]["stmts"][si]
+        ls = len(locals_)
+        locals_.append({"ty": ty, "mut": True})
+        inserts[bb].append((si, {"k": "assign", "place": {"l": ls, "p": []}, "line": cmp_.get("line", 0), "exp": False, "expk": "", "norm": "difference-guard",
+                                 "rv": {"k": "bin", "op": "Add", "a": {"k": "copy", "place": {"l": lx, "p": []}}, "b": cmp_["rv"][other]}}))
+        cmp_["rv"][side] = {"k": "copy", "place": {"l": la, "p": []}}
+        cmp_["rv"][other] = {"k": "move", "place": {"l": ls, "p": []}}
+    for bb, ins in inserts.items():
+        for idx, stmt in sorted(ins, key=lambda x: -x[0]):
+            blocks[bb]["stmts"].insert(idx, stmt)
+    return Body(j, body.prog)
+
+
+def replaced_view(prog, repl):
+    """program in which the bodies named in repl are replaced"""
+    if not repl:
+        return prog
+    p2 = copy.copy(prog)
+    p2.bodies = [repl.get(b.path, b) for b in prog.bodies]
+    p2.by_path = defaultdict(list)
+    for b in p2.bodies:
+        p2.by_path[b.path].append(b)
+    p2._cg = None
+    p2.__dict__.pop("_inl_cache", None)
+    return p2
+
+
+def normalised_view(prog):
+    repl = {}
+    for b in prog.bodies:
+        if b.file.endswith(("decoder.rs", "encoder.rs")) and b.impl_self and re.search(r"(^|::)Base64(De|En)coder\b", b.impl_self):
+            nb = normalise_difference_guards(b)
+            if nb is not b:
+                repl[b.path] = nb
+    return replaced_view(prog, repl)
+
+
 def obligations(ctx):
     """Numeric obligations of clauses (c)/(f): BOUNDS on `[u8;3]`/`[u8;64]`, RANGEIDX, overflow, copy_from_slice lengths — no panic in
     Reach(Base64Decoder::read, Base64Encoder::{write,finish}) — discharged by the abstract interpreter under two inductive struct
@@ -362,7 +558,7 @@ def obligations(ctx):
     call sites in one function) need not do so on its own; when the modular pass leaves something open, the helpers involved are expanded
     into their callers (MIR inlining + forwarding of the `&mut self` reborrows) and the pass is repeated on that view of the program: a proof
     of the expanded program is a proof of the program.  The first pass that discharges everything is the one reported."""
-    first = Recorder(ctx, ctx.prog)
+    first = Recorder(ctx, normalised_view(ctx.prog))
     _obligations(first)
     if not first.failed:
         first.replay()
@@ -387,7 +583,7 @@ def obligations(ctx):
             absorbed |= ab
         if not absorbed:
             continue
-        rec = Recorder(ctx, view)
+        rec = Recorder(ctx, normalised_view(view))
         _obligations(rec)
         if not rec.failed:
             rec.replay()
@@ -566,6 +762,7 @@ class IterV:
         self.items = list(items)
         self.pos = 0
         self.spent = False
+        self.remainder = None       # chunks_exact: the tail that is not part of any chunk
 
     def _check(self):
         if self.spent:
@@ -1072,7 +1269,10 @@ class SymInterp(ce.Interp):
             if m in ("chunks", "chunks_exact") and n == 1 and _is_int(args[0]) and args[0] > 0:
                 c = args[0]
                 stop = len(recv) if m == "chunks" else len(recv) - len(recv) % c
-                return IterV([SliceView(recv, i, min(i + c, stop)) for i in range(0, stop, c)])
+                it = IterV([SliceView(recv, i, min(i + c, stop)) for i in range(0, stop, c)])
+                if m == "chunks_exact":         # `.remainder()`: the len % c elements no chunk covers, whatever was iterated so far
+                    it.remainder = SliceView(recv, stop, len(recv))
+                return it
             if m == "contains" and n == 1 and _is_int(args[0]) and all(_is_int(x) for x in recv):
                 return args[0] in list(recv)
             if m == "iter_mut" and n == 0 and isinstance(recv, (list, SliceView)):
@@ -1094,6 +1294,8 @@ class SymInterp(ce.Interp):
                 return recv.next()
             if m in ("copied", "cloned", "by_ref", "into_iter", "iter", "fuse") and n == 0:
                 return recv
+            if m in ("remainder", "into_remainder") and n == 0 and getattr(recv, "remainder", None) is not None:
+                return recv.remainder
             if m == "enumerate" and n == 0:
                 return IterV([(i, x) for i, x in enumerate(recv.rest(True))])
             if m == "rev" and n == 0:
